@@ -54,3 +54,48 @@ def file_header(nfiles, dirindexes=None, ndirs=1):
     add(T["DIRNAMES"], "StringArray", b"".join(b"/d%d/\0" % i for i in range(ndirs)), ndirs)
     ent.sort()
     return ent, st
+
+
+def cpio_newc(entries):
+    """newc archive: entries = [(name bytes, mode, content bytes)], followed by the trailer"""
+    out = b""
+
+    def one(name, mode, content):
+        nm = name + b"\0"
+        h = b"070701" + b"".join(b"%08x" % v for v in (1, mode, 0, 0, 1, 0, len(content), 0, 0, 0, 0, len(nm), 0)) + nm
+        h += b"\0" * ((4 - len(h) % 4) % 4)
+        return h + content + b"\0" * ((4 - len(content) % 4) % 4)
+    for (name, mode, content) in entries:
+        out += one(name, mode, content)
+    return out + one(b"TRAILER!!!", 0, b"")
+
+
+def files_package(dirnames, files):
+    """complete package bytes: dirnames = [bytes], files = [(dirindex, basename, raw mode, linkto, content)]"""
+    import struct
+    T = {"BASENAMES": 1117, "DIRINDEXES": 1116, "DIRNAMES": 1118, "FILEMODES": 1030, "FILEUSERNAME": 1039, "FILEGROUPNAME": 1040, "FILEDIGESTS": 1035,
+         "FILEMTIMES": 1034, "FILESIZES": 1028, "FILEFLAGS": 1037, "FILELINKTOS": 1036}
+    ent, st = [], b""
+
+    def add(tag, ty, data, count, align=1):
+        nonlocal st
+        st += b"\0" * ((align - len(st) % align) % align)
+        ent.append((tag, ty, len(st), count))
+        st += data
+    n = len(files)
+    if n:
+        add(T["FILESIZES"], "Int32", b"".join(struct.pack(">I", len(f[4])) for f in files), n, 4)
+        add(T["FILEMODES"], "Int16", b"".join(struct.pack(">H", f[2] & 0xffff) for f in files), n, 2)
+        add(T["FILEMTIMES"], "Int32", b"".join(struct.pack(">I", 0) for _ in range(n)), n, 4)
+        add(T["FILEDIGESTS"], "StringArray", b"\0" * n, n)
+        add(T["FILELINKTOS"], "StringArray", b"".join(f[3] + b"\0" for f in files), n)
+        add(T["FILEFLAGS"], "Int32", b"".join(struct.pack(">I", 0) for _ in range(n)), n, 4)
+        add(T["FILEUSERNAME"], "StringArray", b"root\0" * n, n)
+        add(T["FILEGROUPNAME"], "StringArray", b"root\0" * n, n)
+        add(T["DIRINDEXES"], "Int32", b"".join(struct.pack(">I", f[0]) for f in files), n, 4)
+        add(T["BASENAMES"], "StringArray", b"".join(f[1] + b"\0" for f in files), n)
+    if dirnames:
+        add(T["DIRNAMES"], "StringArray", b"".join(d + b"\0" for d in dirnames), len(dirnames))
+    ent.sort()
+    content = cpio_newc([(b"." + (dirnames[f[0]] if f[0] < len(dirnames) else b"/") + f[1], f[2], f[4]) for f in files])
+    return lead() + sig_header([], b"") + header(ent, st) + content
